@@ -36,8 +36,11 @@ func (bt *btree) RangeFrac(org, end string) float64 {
 // NOTE: depends on btree.count being correct
 func (bt *btree) rangeFrac(org, end string) (result float64) {
 	defer func() {
+		// it is an estimate, make sure it is a valid fraction
 		if result < 0 {
 			result = 0
+		} else if result > 1 {
+			result = 1
 		}
 	}()
 	_ = t && trace("=== rangeFrac", org, end)
